@@ -741,7 +741,7 @@ func genParBlocks(r *core.Rand) string {
 	var subs []string
 	for i := 0; i < 8; i++ {
 		var ops []string
-		n := 60 + r.Intn(30)
+		n := 50 + r.Intn(25)
 		for b := 1; b <= n; b++ {
 			ops = append(ops, "bw:w", fmt.Sprintf("sb:w:%d:%d", b, 1+(b*37+i*11)%200), "co:w")
 		}
